@@ -168,8 +168,9 @@ def run(ctx, prop, relevant):
     if q:
         mcs = [tlc_mc(ctx, "Ipam_mc", "Ipam_mc.cfg", timeout=600), tlc_mc(ctx, "Ipam_mc", "Ipam_mc_forced.cfg", timeout=600)]
     else:
-        mcs = [tlc_mc(ctx, "Ipam_mc", "Ipam_mc_thorough.cfg", timeout=1500, coverage=True),
-               tlc_mc(ctx, "Ipam_mc", "Ipam_mc_forced_thorough.cfg", timeout=1500)]
+        mcs = [tlc_mc(ctx, "Ipam_mc", "Ipam_mc_thorough.cfg", timeout=1500),
+               tlc_mc(ctx, "Ipam_mc", "Ipam_mc_forced_thorough.cfg", timeout=900),
+               tlc_mc(ctx, "Ipam_mc", "Ipam_mc_dual_thorough.cfg", timeout=900, coverage=True)]
     scen = tc.simulate(ctx, "Ipam_mc", "Ipam_gen.cfg", num=16 if q else 160, depth=90)
     nscen = prepare_scenarios(scen)
     bins = go_build_tests(ctx, [PKG])
